@@ -273,6 +273,8 @@ class RefServer:
         self.expect_tls = False
         self.quota = quota
         self.greeted = False
+        # 0: OK "text"   1: OK (TAG "motd") {n} literal whose lines look like status lines   2: bare OK
+        self.handshake_ok_form = 0
 
     # -- output helpers
     def emit(self, b):
@@ -289,12 +291,19 @@ class RefServer:
             out += CRLF
         return out
 
+    def handshake_ok(self, text):
+        if self.handshake_ok_form == 1:
+            return status(b"OK", b'TAG "motd"', b"Scheduled maintenance.\r\nOK until then.\r\nNO \"x\"", literal=True)
+        if self.handshake_ok_form == 2:
+            return status(b"OK")
+        return status(b"OK", None, text)
+
     def greet(self):
         self.greeted = True
         f = self.fault_for("GREETING")
         if f:
             return self.apply_fault(f)
-        self.emit(self.capability_lines() + status(b"OK", None, b"RefMS ready."))
+        self.emit(self.capability_lines() + self.handshake_ok(b"RefMS ready."))
 
     def fault_for(self, verb):
         k = self.seen.get(verb, 0)
@@ -411,7 +420,7 @@ class RefServer:
             return self.no(None, b"STARTTLS not available")
         if args:
             pass
-        self.ok(b"Begin TLS negotiation now.")
+        self.emit(self.handshake_ok(b"Begin TLS negotiation now."))
         self.expect_tls = True
 
     def tls_established(self):
@@ -421,7 +430,7 @@ class RefServer:
         f = self.fault_for("TLSCAPS")
         if f:
             return self.apply_fault(f)
-        self.emit(self.capability_lines() + status(b"OK", None, b"TLS negotiation successful."))
+        self.emit(self.capability_lines() + self.handshake_ok(b"TLS negotiation successful."))
 
     def do_AUTHENTICATE(self, args):
         mech = self.sval(args[0]).upper()
@@ -455,7 +464,8 @@ class RefServer:
             return
         if mech == "DIGEST-MD5":
             self.auth_state = ("DIGEST-MD5", [])
-            chal = b'realm="ref",nonce="OA6MG9tEQGm2hh",qop="auth",algorithm=md5-sess,charset=utf-8'
+            realm = getattr(self, "digest_realm", "ref")
+            chal = ((b'realm="%s",' % realm.encode()) if realm else b"") + b'nonce="OA6MG9tEQGm2hh",qop="auth",algorithm=md5-sess,charset=utf-8'
             self.emit(enc_quoted(base64.b64encode(chal)) + CRLF)
             return
         self.auth_log.append((mech, chan, None))
@@ -547,6 +557,9 @@ class RefServer:
             return HEX(("%s:%s:%s:%s:%s:%s" % (HEX(a1), fields.get("nonce"), fields.get("nc"), fields.get("cnonce"),
                                                 fields.get("qop"), HEX(a2.encode("utf-8")))).encode("utf-8"))
 
+        sent_realm = getattr(self, "digest_realm", "ref") or ""
+        if fields.get("realm", "") != sent_realm:
+            return None
         if fields.get("nonce") != self.DIGEST_NONCE or fields.get("response") != kd("AUTHENTICATE:" + fields.get("digest-uri", "")):
             return None
         return kd(":" + fields.get("digest-uri", "")).encode("ascii")
